@@ -4,7 +4,7 @@
  *   if           is `#if COAP_THREAD_SAFE` taken
  *   rc           is `#if COAP_THREAD_RECURSIVE_CHECK` taken
  *   linked       does the library contain coap_lock_lock_func (pulled in through the API functions' references)
- *   mutex_calls  number of pthread_mutex_lock() calls libcoap makes during one coap_prng() call after coap_startup()
+ *   mutex_calls  number of pthread_mutex_lock()/trylock() calls libcoap makes during one coap_prng() call after coap_startup()
  *                (pthread_mutex_lock is --wrap'ped for the objects of libcoap-3.a and this file only)
  *   advertised   coap_threadsafe_is_supported()
  */
@@ -22,6 +22,12 @@ int __real_pthread_mutex_lock(pthread_mutex_t *m);
 int __wrap_pthread_mutex_lock(pthread_mutex_t *m) {
   mutex_calls++;
   return __real_pthread_mutex_lock(m);
+}
+
+int __real_pthread_mutex_trylock(pthread_mutex_t *m);
+int __wrap_pthread_mutex_trylock(pthread_mutex_t *m) {
+  mutex_calls++;
+  return __real_pthread_mutex_trylock(m);
 }
 
 int main(void) {
